@@ -38,6 +38,21 @@ CLAIMED = {
             "REAL mode (exact reals; rcpss/rsqrtss idealised as exact; sin/cos constrained by s^2+c^2=1 and stated double-angle links); "
             "preconditions det != 0 / unit vectors / unit quaternions; slerp and orthogonal() convergence not covered; float (and padded vec3fa in thorough) instantiations",
             "symbolic execution of LLVM IR into SMT (z3 nonlinear real arithmetic), compositional cuts, native replay"),
+    "C05": ("other",
+            "SMT verdicts (z3) over all boxes, points, rays and affine maps: range.h/box.h/AffineSpace.h lowered to LLVM IR and executed symbolically; "
+            "set predicates bit-precisely (IEEE floats incl. +-inf, int32), xfmBounds containment/tightness and intersectRayBox exactness over exact reals, per axis.",
+            "DESIGN.md 3/C05",
+            "NaN excluded; int32 coordinates within +-1e9; xfmBounds/intersectRayBox: exact reals (rounding not decided), non-axis-parallel rays (|d|>=1e-30); "
+            "dimensions 1-4 (quick: a subset of instantiations); fromString/operator<< outside",
+            "symbolic execution of LLVM IR into SMT (z3 floating-point / bit-vector / nonlinear real arithmetic), native replay"),
+    "C07": ("other",
+            "SMT verdicts (z3) over all inputs of the scalar kernels: rcp/rsqrt accuracy <= 2^-20 under the standard rounding-error model with the Intel SDM "
+            "contract for rcpss/rsqrtss, in both the SIMD and RKCOMMON_NO_SIMD builds; rcp_safe finite/sign for every finite x; clamp, sign, lerp, deg2rad, madd, "
+            "divRoundUp (8 integer types), 8-bit/sRGB packing (monotone, saturating, per channel) bit-precisely; distributions' range over exact reals.",
+            "DESIGN.md 3/C07",
+            "rcpss/rsqrtss and powf/roundf by contract (not the silicon table / libm); rounding model (1+d) per float op, normal range; -0.0 and denormals read numerically "
+            "in rcp_safe; distribution range over exact reals with machine words abstracted to their range; reproducibility shown for the first two draws",
+            "symbolic execution of LLVM IR into SMT (z3 nonlinear real arithmetic with rounding-error variables, floating-point, bit-vectors), native replay"),
 }
 
 NOT_YET = "check not yet built (work in progress, see DESIGN.md section 7)"
